@@ -299,7 +299,7 @@ theorem fetch_skips_children_checkout :
 
 /-! ## 6. regenerated facts -/
 
-theorem fetch_key_fact : Dud.Facts.fetchChildKey = "$local.Checksum" := by decide
+theorem fetch_key_fact : Dud.Facts.fetchChildKey = "manifest-entry.Checksum" := by decide
 theorem push_perms_fact : Dud.Facts.pushSetsPerms = true ∧ Dud.Facts.cacheFilePerms = 0o444 := by decide
 
 /-! ## non-vacuity -/
